@@ -23,6 +23,8 @@ def run(ctx):
     res.assumptions = ["observation at the client sockets with the barrier protocol (DESIGN 2.3)",
                        "snapshot hook reads the state under the server's own lock",
                        "reference model of DESIGN 2.4 encodes the statement; unspecified choices are resynchronised, not judged"]
+    # KILL of a session that lingers (stuck behind its own unread output), repeated: "disconnects exactly the named user"
+    common.run_stuck(ctx, res, sigs=("stuck:killer-dropped", "stuck:handler-abort", "stuck:bystanders-changed", "stuck:users"))
     return res
 
 
